@@ -149,7 +149,7 @@ def repeat_scripts(name):
 
 def chains(depth):
     """if / elsif / else chains with nested blocks"""
-    leaf = [("keep", ";"), ("stop", ";"), ("keep", ";", "discard", ";"), ()]
+    leaf = [("keep", ";"), ("stop", ";"), ("keep", ";", "discard", ";"), (), ("reject", "ML", ";"), ("fileinto", ":copy", "STR", ";")]
     blocks = list(leaf)
     for d in range(depth):
         nb = list(leaf)
@@ -157,6 +157,7 @@ def chains(depth):
             nb.append(("if", "true", "{") + b + ("}",))
             nb.append(("if", "true", "{") + b + ("}", "else", "{") + b + ("}",))
             nb.append(("if", "false", "{", "}", "elsif", "true", "{") + b + ("}", "else", "{", "stop", ";", "}"))
+            nb.append(("if", "false", "{") + b + ("}",))  # the shape of a disabled filter: its content is checked like any other
             nb.append(("keep", ";", "if", "not", "true", "{") + b + ("}", "elsif", "false", "{", "}", "elsif", "true", "{", "}"))
         seen = set()
         blocks = [x for x in nb if not (x in seen or seen.add(x))]
